@@ -103,6 +103,7 @@ type nativeCase struct {
 }
 
 type nativeResult struct {
+	Race   bool
 	Fails  []string
 	Reach  []string
 	Obs    []obsVal
@@ -117,6 +118,7 @@ type checkCtx struct {
 	tier                      string
 	seed                      int
 	goBin                     string
+	raceRun                   bool
 }
 
 func envOr(k, d string) string {
@@ -316,6 +318,25 @@ func cmdCheck(args []string) int {
 			}
 		}
 	}
+	// data races reported by the executor's happens-before analysis are confirmed by Go's race
+	// detector on the same inputs
+	if pp.Native != "none" {
+		var raceCases []nativeCase
+		for id, v := range violByID {
+			if v.Kind == "race" {
+				raceCases = append(raceCases, nativeCase{Pkg: v.Pkg, ID: id, Harness: v.Harness, Params: v.Params, Inputs: v.Model})
+			}
+		}
+		if len(raceCases) > 0 {
+			c.raceRun = true
+			if r2, err2 := c.runNative(prog, specs, raceCases, pkgOf, pp.Native); err2 == nil {
+				for id, r := range r2 {
+					results[id] = r
+				}
+			}
+			c.raceRun = false
+		}
+	}
 	for id, s := range byID {
 		r := results[id]
 		if r == nil || !r.Seen {
@@ -381,6 +402,9 @@ func cmdCheck(args []string) int {
 			case v.Kind == "panic":
 				confirmed = r.Panic != ""
 				why = "native run did not panic"
+			case v.Kind == "race":
+				confirmed = r.Race
+				why = "Go's race detector reported nothing on the replay"
 			case v.Kind == "deadlock":
 				confirmed = r.Panic != "" || contains(r.Fails, "deadlock")
 				why = "native run did not deadlock"
@@ -695,6 +719,9 @@ func (c *checkCtx) runNative(prog *Program, specs []*HarnessSpec, cases []native
 		if mode == "synctest" {
 			goBin = "go1.26.8"
 		}
+		if c.raceRun {
+			args = append(args[:2], append([]string{"-race"}, args[2:]...)...)
+		}
 		cmd := exec.Command(goBin, args...)
 		cmd.Dir = c.repo
 		cmd.Env = env
@@ -740,6 +767,8 @@ func parseNative(out []byte, results map[string]*nativeResult) {
 				o.Hex = f[2]
 			}
 			cur.Obs = append(cur.Obs, o)
+		case strings.Contains(l, "WARNING: DATA RACE"):
+			cur.Race = true
 		case strings.HasPrefix(l, "VERIF-PANIC "):
 			cur.Panic = strings.TrimPrefix(l, "VERIF-PANIC ")
 		case l == "VERIF-ASSUME-FAILED":
